@@ -232,3 +232,35 @@ Proof.
   assert (WI : wf_image_state lim n g) by (apply inv_wf_image; auto; rewrite C; exact Lcap).
   split; [apply load_save; exact WI|]. intros k Hk. apply load_cut; assumption.
 Qed.
+
+(** ** consequences for the printers: every state reached through the
+    interface is closed (all stored edge targets are below the capacity), so
+    inspect() terminates on it from every start vertex; its labels are
+    pairwise distinct, so the exports are canonical *)
+
+From Sodg Require Import Reach PrintFacts Export ExportFacts.
+
+Lemma wf_closed g v : Wf g -> v < cap_of g -> closed g v.
+Proof.
+  intros HW Hv. split; [exact Hv|]. intros u a w _ Hin. apply (w_edg _ HW u a w Hin).
+Qed.
+
+Theorem reachable_inspect_terminates n cap os v :
+  within_limits n cap sinit os -> Forall wf_op os -> v < cap ->
+  exists g ls, Spec.run n (op_empty cap) os = Ok (g, snd (srun sinit os)) /\ inspect_doc g v = Ok ls.
+Proof.
+  intros HL HO Hv. rewrite <- (cap_empty cap) in HL.
+  destruct (wf_run n os (op_empty cap) sinit (inv_empty n cap) (R_init cap) (wf_empty cap) HL HO)
+    as (g & A & I & W & _ & C).
+  rewrite cap_empty in C.
+  destruct (inspect_total g v) as [[ls E]|E].
+  - exists g, ls. auto.
+  - exfalso. assert (Hc : closed g v) by (apply wf_closed; [exact W|rewrite C; exact Hv]).
+    destruct (inspect_doc_spec g v Hc) as (ls & rs & E' & _). rewrite E in E'. discriminate.
+Qed.
+
+Theorem invariant_export_canonical n g1 g2 :
+  Inv n g1 -> same_content g1 g2 -> op_to_xml g1 = op_to_xml g2 /\ op_to_dot g1 = op_to_dot g2.
+Proof.
+  intros HI HS. apply export_canonical; [|exact HS]. intros v _. apply (i_edges HI v).
+Qed.
